@@ -79,7 +79,7 @@ fn check_fast(report: &Report, s: &str) -> u8 {
 }
 
 /// Full path: all five constructors, views, idempotence, case-insensitivity.
-fn check_full(report: &Report, s: &str) {
+pub fn check_full(report: &Report, s: &str) {
     check_fast(report, s);
     let base = match catch(|| NormalizedString::new(s)) {
         Ok(r) => r,
